@@ -100,11 +100,12 @@ class Arr:
 
 
 class VecV:
-    __slots__ = ('cells', 'elem')
+    __slots__ = ('cells', 'elem', 'cap')
 
     def __init__(self, cells, elem=None):
         self.cells = cells
         self.elem = elem
+        self.cap = None
 
     def __repr__(self):
         return f"Vec{[c.v for c in self.cells]}"
@@ -298,6 +299,32 @@ def deep(v):
 
 
 # --------------------------------------------------------------------------- program
+_NAME_SUBS = [('nom::internal::', 'nom::'), ('nom::traits::', 'nom::'), ('quote::to_tokens::ToTokens', 'quote::ToTokens'),
+              ('quote::ext::TokenStreamExt', 'quote::TokenStreamExt'), ('quote::ident_fragment::IdentFragment', 'quote::IdentFragment')]
+
+
+def _norm_name(s):
+    """rustc prints a path through the shortest re-export visible from the crate being compiled; a harness crate sees
+    the defining modules of nom / quote items instead of the crate-root re-exports that rasn-compiler itself sees"""
+    for a, b in _NAME_SUBS:
+        if a in s:
+            s = s.replace(a, b)
+    return s
+
+
+def _normalise_names(d):
+    for v in d['instances'].values():
+        v['name'] = _norm_name(v['name'])
+        for c in (v.get('callees') or {}).values():
+            if isinstance(c, dict) and 'name' in c:
+                c['name'] = _norm_name(c['name'])
+    for t in d['types'].values():
+        if 'str' in t:
+            t['str'] = _norm_name(t['str'])
+        if isinstance(t.get('adt'), dict) and 'name' in t['adt']:
+            t['adt']['name'] = _norm_name(t['adt']['name'])
+
+
 class Program:
     def __init__(self, path):
         pk = path + '.pickle'
@@ -305,6 +332,7 @@ class Program:
             d = pickle.load(open(pk, 'rb'))
         else:
             d = json.load(open(path))
+            _normalise_names(d)
             try:
                 pickle.dump(d, open(pk + '.tmp', 'wb'), protocol=4)
                 os.replace(pk + '.tmp', pk)
@@ -1431,12 +1459,12 @@ class Exec:
         except Unsupported as e:
             if not getattr(e, 'located', False):
                 e.located = True
-                e.args = (f"{e.args[0]} [in {' <- '.join(x[:90] for x in self.stack[-1:-6:-1])}]",)
+                e.args = (f"{e.args[0]} [in {' <- '.join((x if len(x) <= 90 else x[:60] + '..' + x[-28:]) for x in self.stack[-1:-6:-1])}]",)
             raise
         except (IndexError, KeyError, AttributeError, TypeError, AssertionError, z3.Z3Exception) as e:
             import traceback
             tb = traceback.extract_tb(e.__traceback__)[-1]
-            u = Unsupported(f"internal {type(e).__name__}: {e} at {tb.filename.rsplit('/', 1)[-1]}:{tb.lineno} [in {' <- '.join(x[:90] for x in self.stack[-1:-6:-1])}]")
+            u = Unsupported(f"internal {type(e).__name__}: {e} at {tb.filename.rsplit('/', 1)[-1]}:{tb.lineno} [in {' <- '.join((x if len(x) <= 90 else x[:60] + '..' + x[-28:]) for x in self.stack[-1:-6:-1])}]")
             u.located = True
             raise u
         finally:
